@@ -313,6 +313,7 @@ func propC09() *PropSpec {
 			js = append(js, jobsN("js", "VerifJSForInit", []int{0}, "js: 10 statement prefixes x 6 loops merged into for-initialisers (in operator, calls, arrows): output parses and is stable")...)
 			js = append(js, jobsN("js", "VerifJSNumberMember", pick(rng(1, 4), rng(1, 5)), "js: (numeric literal of n symbolic bytes).p is accepted again")...)
 			js = append(js, jobsN("js", "VerifJSStringUnits", pick(rng(1, 2), rng(1, 2)), "js: string literal units incl. escaped </script (no </script may appear)")...)
+			js = append(js, jobsN("js", "VerifJSStringTemplate", pick(rng(1, 3), rng(1, 3)), "js: n units spelling $ { ` \\ (literal, hex, octal, unicode escapes) followed by three newline escapes, template literal allowed: the output is a well-formed literal for its quote (no live ${ substitution is opened); added for seeded change C09-r8m1")...)
 			js = append(js, jobsN("svg", "VerifSVGTree", []int{0}, "svg: namespaced / editor / foreignObject templates: output well-formed")...)
 			js = append(js, jobsN("svg", "VerifSVGEntities", rng(0, 1), "svg: references to < and & in text and attribute values stay escaped (output well-formed)")...)
 			js = append(js, jobsN("svg", "VerifSVGPathNumbers", pick([]int{2}, []int{2, 4}), "svg: number notations in path data: output is valid path data")...)
